@@ -484,4 +484,122 @@ theorem lhist_in (cap : Nat) : ∀ (ops : List (LOp K V Q)) (l : List (K × V)),
     | ok l' back tr => simp [lhist_in cap ops l', List.flatMap_cons]
     | overflow tr => simp [lhist_in cap ops l, List.flatMap_cons]
 
+
+/-! ### conservation under ANY user equality
+
+Which branch an operation takes depends on what `==` answers; conservation does not.  No
+hypothesis on `E` besides drop glue for values. -/
+
+/-- one step, any oracle: the step returns or raises the container's overflow panic; either way
+    stored + passed in = stored' + handed back + dropped. -/
+def StepConserves (w : Obj K V → Nat) (op : LOp K V Q) (s : St K V Q) (l : List (K × V)) : Prop :=
+  (∃ back s' l' tr, lmrun E op s = .ok back s' ∧ Rep s'.r l' ∧ s'.r.cap = s.r.cap ∧ WRel s.w s'.w tr ∧
+      wpairs w l + wsum w op.inObjs = wpairs w l' + wsum w back + wsum w (droppedOf tr)) ∨
+  (∃ c s' tr, lmrun E op s = .panic c s' ∧ s'.r = s.r ∧ WRel s.w s'.w tr ∧
+      wsum w op.inObjs = wsum w (droppedOf tr))
+
+theorem lrun_conserves (hv : E.vGlue = true) (w : Obj K V → Nat) (op : LOp K V Q) {s : St K V Q}
+    {l : List (K × V)} (hr : Rep s.r l) (hb : Benign s.w) : StepConserves E w op s l := by
+  unfold StepConserves
+  cases op with
+  | insert k v =>
+    rcases outcome (insert_sat E hr k v) with ⟨a, s', hm, hc, hq⟩ | ⟨c, s', hm, _, hq⟩
+    · rcases hq with ⟨j, hj, ha, hrep, hw, _⟩ | ⟨ha, _, hrep, hw, _⟩
+      · subst ha
+        refine Or.inl ⟨[Obj.v l[j].2], s', _, _, by simp [lmrun, hm], hrep, hc, hw, ?_⟩
+        simp [LOp.inObjs, wpairs_set w hj, wpairs_eraseIdx w hj, droppedOf]; omega
+      · subst ha
+        refine Or.inl ⟨[], s', _, _, by simp [lmrun, hm], hrep, hc, hw, ?_⟩
+        simp [LOp.inObjs, droppedOf]
+    · rcases hq with ⟨hi', _⟩ | ⟨hs, _, _, _, hw⟩
+      · exact (no_inj hb hi').elim
+      · refine Or.inr ⟨c, s', _, by simp [lmrun, hm], hs, hw, ?_⟩
+        simp [LOp.inObjs, droppedOf_append, droppedOf_dropVTr E hv, droppedOf]; omega
+  | insert_key_value k v =>
+    rcases outcome (insert_key_value_sat E hr k v) with ⟨a, s', hm, hc, hw, hq⟩ | ⟨c, s', hm, hs, hq⟩
+    · rcases hq with ⟨j, hj, ha, hrep, _⟩ | ⟨ha, _, hrep, _⟩
+      · subst ha
+        refine Or.inl ⟨[Obj.k l[j].1, Obj.v l[j].2], s', _, _, by simp [lmrun, hm], hrep, hc, hw, ?_⟩
+        simp [LOp.inObjs, wpairs_set w hj, wpairs_eraseIdx w hj, droppedOf]; omega
+      · subst ha
+        refine Or.inl ⟨[], s', _, _, by simp [lmrun, hm], hrep, hc, hw, ?_⟩
+        simp [LOp.inObjs, droppedOf]
+    · rcases hq with hi' | ⟨_, _, _, hw⟩
+      · exact (no_inj hb hi').elim
+      · refine Or.inr ⟨c, s', _, by simp [lmrun, hm], hs, hw, ?_⟩
+        simp [LOp.inObjs, droppedOf_append, droppedOf_dropVTr E hv, droppedOf]; omega
+  | checked_insert k v =>
+    rcases outcome (checked_insert_sat E hr k v) with ⟨a, s', hm, hc, hq⟩ | ⟨c, s', _, _, hi', _⟩
+    · rcases hq with ⟨j, hj, ha, hrep, hw, _⟩ | ⟨ha, _, hrep, hw, _⟩ | ⟨ha, _, hs, hw, _⟩
+      · subst ha
+        refine Or.inl ⟨[Obj.v l[j].2], s', _, _, by simp [lmrun, hm], hrep, hc, hw, ?_⟩
+        simp [LOp.inObjs, wpairs_set w hj, wpairs_eraseIdx w hj, droppedOf]; omega
+      · subst ha
+        refine Or.inl ⟨[], s', _, _, by simp [lmrun, hm], hrep, hc, hw, ?_⟩
+        simp [LOp.inObjs, droppedOf]
+      · subst ha
+        refine Or.inl ⟨[], s', l, _, by simp [lmrun, hm], hs ▸ hr, hc, hw, ?_⟩
+        simp [LOp.inObjs, droppedOf_append, droppedOf_dropVTr E hv, droppedOf]; omega
+    · exact (no_inj hb hi').elim
+  | get pr =>
+    rcases outcome (get_sat E hr pr) with ⟨o, s', hm, hs, hw, _⟩ | ⟨c, s', _, _, hi'⟩
+    · exact Or.inl ⟨[], s', l, _, by simp [lmrun, hm], hs ▸ hr, by rw [hs], hw, by simp [LOp.inObjs, droppedOf]⟩
+    · exact (no_inj hb hi').elim
+  | contains_key pr =>
+    rcases outcome (contains_key_cb E hr pr) with ⟨o, s', hm, hs, hw, _⟩ | ⟨c, s', _, _, hi'⟩
+    · exact Or.inl ⟨[], s', l, _, by simp [lmrun, hm], hs ▸ hr, by rw [hs], hw, by simp [LOp.inObjs, droppedOf]⟩
+    · exact (no_inj hb hi').elim
+  | remove pr =>
+    rcases outcome (remove_sat E hr pr) with ⟨o, s', hm, hc, ho, _⟩ | ⟨c, s', _, _, hi', _⟩
+    · rcases ho with ⟨hon, hs, hw⟩ | ⟨j, hj, hoj, hrep, hw, _⟩
+      · subst hon
+        exact Or.inl ⟨[], s', l, _, by simp [lmrun, hm], hs ▸ hr, hc, hw, by simp [LOp.inObjs, droppedOf]⟩
+      · subst hoj
+        refine Or.inl ⟨[Obj.v l[j].2], s', _, _, by simp [lmrun, hm], hrep, hc, hw, ?_⟩
+        simp [LOp.inObjs, wpairs_swapRemove w hj, wpairs_eraseIdx w hj, droppedOf]; omega
+    · exact (no_inj hb hi').elim
+  | remove_entry pr =>
+    rcases outcome (remove_entry_sat E hr pr) with ⟨o, s', hm, hc, hw, ho, _⟩ | ⟨c, s', _, _, hi'⟩
+    · rcases ho with ⟨hon, hs⟩ | ⟨j, hj, hoj, hrep, _⟩
+      · subst hon
+        exact Or.inl ⟨[], s', l, _, by simp [lmrun, hm], hs ▸ hr, hc, hw, by simp [LOp.inObjs, droppedOf]⟩
+      · subst hoj
+        refine Or.inl ⟨[Obj.k l[j].1, Obj.v l[j].2], s', _, _, by simp [lmrun, hm], hrep, hc, hw, ?_⟩
+        simp [LOp.inObjs, wpairs_swapRemove w hj, wpairs_eraseIdx w hj, droppedOf]; omega
+    · exact (no_inj hb hi').elim
+  | clear =>
+    rcases outcome (clear_sat E hr) with ⟨_, s', hm, hrep, hc, hw⟩ | ⟨c, s', _, _, _, hi'⟩
+    · refine Or.inl ⟨[], s', _, _, by simp [lmrun, hm], hrep, hc, hw, ?_⟩
+      have h0 : wsum w (pairObjs ([] : List (K × V))) = 0 := rfl
+      simp [LOp.inObjs, droppedOf_dropTrace E hv, wpairs, h0]
+    · exact (no_inj hb hi').elim
+  | drain take =>
+    rcases outcome (Iters.drainOp_sat E take false hr) with ⟨res, s', hm, hres, hrep, hc, hw⟩ | ⟨c, s', _, _, _, hi', _⟩
+    · subst hres
+      refine Or.inl ⟨pairObjs (l.take take), s', _, _, by simp [lmrun, hm], hrep, hc, (by simpa using hw), ?_⟩
+      have h0 : wsum w (pairObjs ([] : List (K × V))) = 0 := rfl
+      have := wpairs_take_drop w l take
+      simp [LOp.inObjs, droppedOf_dropTrace E hv, wpairs, h0] at this ⊢
+      omega
+    · exact (no_inj hb hi').elim
+
+/-- **Conservation over every history, under any user equality.** -/
+theorem lmhist_conserves (hv : E.vGlue = true) (w : Obj K V → Nat) :
+    ∀ (ops : List (LOp K V Q)) (s : St K V Q) (l : List (K × V)), Rep s.r l → Benign s.w →
+    ∃ sf back tr lf, lmhist E ops s = some (sf, back) ∧ Rep sf.r lf ∧ sf.r.cap = s.r.cap ∧
+      WRel s.w sf.w tr ∧
+      wpairs w l + wsum w (ops.flatMap LOp.inObjs) = wpairs w lf + wsum w back + wsum w (droppedOf tr)
+  | [], s, l, hr, _ => ⟨s, [], [], l, rfl, hr, rfl, WRel.refl _, by simp [droppedOf]⟩
+  | op :: ops, s, l, hr, hb => by
+    unfold lmhist
+    rcases lrun_conserves E hv w op hr hb with ⟨back, s', l', tr, hm, hrep, hc, hw, heq⟩ | ⟨c, s', tr, hm, hs, hw, heq⟩
+    · obtain ⟨sf, b2, t2, lf, h1, h2, h3, h4, h5⟩ := lmhist_conserves hv w ops s' l' hrep (hw.benign hb)
+      refine ⟨sf, back ++ b2, tr ++ t2, lf, by simp [hm, h1], h2, h3.trans hc, hw.trans h4, ?_⟩
+      simp only [List.flatMap_cons, wsum_append, droppedOf_append] at heq h5 ⊢
+      omega
+    · obtain ⟨sf, b2, t2, lf, h1, h2, h3, h4, h5⟩ := lmhist_conserves hv w ops s' l (hs ▸ hr) (hw.benign hb)
+      refine ⟨sf, b2, tr ++ t2, lf, by simp [hm, h1], h2, by rw [h3, hs], hw.trans h4, ?_⟩
+      simp only [List.flatMap_cons, wsum_append, droppedOf_append] at heq h5 ⊢
+      omega
+
 end Micromap.Ledger
